@@ -1482,14 +1482,18 @@ class Repository:
                 future.result()
 
             for file_path in referenced_paths:
+                # Decide whether this was the last chunk of the file inside the
+                # same critical section that removes the digest: otherwise two
+                # loaders can both observe the empty set and both finish the file
                 with glock:
                     digests = files_digests[file_path]
                     digests.remove(digest)
-
-                if not digests:
-                    logger.info('Finished writing file %s', file_path)
-                    with glock:
+                    finished = not digests
+                    if finished:
                         restore_path, metadata = files_metadata.pop(file_path)
+
+                if finished:
+                    logger.info('Finished writing file %s', file_path)
                     self.restore_metadata(restore_path, metadata)
                     finished_tracker.update()
 
